@@ -13,9 +13,10 @@ PROP = {'lean': 'MpsProps.C17',
               'Mps.C17.twoparty_lifecycle', 'Mps.C17.twoparty_close_at_most_once', 'Mps.C17.twoparty_closed_iff_ended',
               'Mps.C17.twoparty_ended_is_final', 'Mps.C17.twoparty_stop_running_errors'],
  'generated': ['Mps.C17.gen_lock_discipline', 'Mps.C17.gen_stop', 'Mps.C17.gen_out_capacity'],
- 'suites': [{'name': 'handler', 'quick': 250, 'thorough': 6000}, {'name': 'twoparty', 'quick': 200, 'thorough': 5000}, {'name': 'handlerconc', 'quick': 60, 'thorough': 1500, 'race': True}],
+ 'suites': [{'name': 'handler', 'quick': 250, 'thorough': 6000}, {'name': 'twoparty', 'quick': 200, 'thorough': 5000}, {'name': 'handlerconc', 'quick': 60, 'thorough': 1500, 'race': True},
+            {'name': 'twopartyconc', 'quick': 150, 'thorough': 4000, 'race': True}],
  'race': True,
- 'propfields': {'handler': ['closed', 'term', 'can'], 'twoparty': ['closed', 'term', 'can'], 'handlerconc': ['ok']},
+ 'propfields': {'handler': ['closed', 'term', 'can'], 'twoparty': ['closed', 'term', 'can'], 'handlerconc': ['ok'], 'twopartyconc': ['ok']},
  'level_text': 'Proof (partial for the runtime part): the lifecycle invariant (channel closed at most once and exactly when ended; result xor error; '
                'ended state absorbing; Stop ends a running session and is a no-op on an ended one; refused and duplicate messages are no-ops) is a '
                'Lean theorem over ALL scripts and ALL sequences of API calls of the handler model, which transcribes MultiHandler field by field. '
